@@ -45,11 +45,12 @@ class Obligation:
 
 class Run:
     """One tabulated analysis of a function on a canonical input."""
-    __slots__ = ("name", "obls", "children", "ret", "out", "idx")
+    __slots__ = ("name", "obls", "children", "ret", "out", "idx", "calls")
 
     def __init__(self, name, idx):
         self.name = name
         self.idx = idx
+        self.calls = {}
         self.obls = {}
         self.children = {}
         self.ret = None
@@ -113,6 +114,18 @@ class Interp:
                         thr.update((c, c - 1, c + 1))
         for bits in (8, 16, 32, 63, 64):
             thr.update(((1 << bits) - 1, 1 << bits))
+        # array lengths that occur in any type are natural bounds of cursors and indices
+        def ty_lens(ty, depth=0):
+            if depth > 6 or ty is None:
+                return
+            if ty.k == "array" and isinstance(ty.len, int):
+                thr.update((ty.len, ty.len - 1))
+            for sub in ([ty.to, ty.elem] + list(ty.elems) + [a for a in ty.args if isinstance(a, Ty)]):
+                if sub is not None:
+                    ty_lens(sub, depth + 1)
+        for b in facts.bodies:
+            for l in b.locals:
+                ty_lens(l.ty)
         self.thresholds = sorted(thr)
         self.callstack = []
         self.assumed = Counter()
@@ -1155,7 +1168,7 @@ class Interp:
             if bb in heads and (k is None or k == "w"):
                 prev = last_in.get(node)
                 if prev is not None:
-                    widen = visits[node] > WIDEN_AFTER
+                    widen = True
                     cur0 = cur
                     cur = Joiner((nkey, "h"), prev, cur, widen, fr.thr, True).run()
                     if self.debug_heads:
@@ -1370,6 +1383,13 @@ class Interp:
                 return ArrV("array", const_int(n), _smash(st, ops, ("agg",) + key))
             if rv.agg == "adt":
                 adt = self.facts.adts.get(rv.adt)
+                if adt is not None:
+                    fl = adt["variants"][rv.variant]["fields"] if rv.variant < len(adt["variants"]) else []
+                    for i, f in enumerate(fl):
+                        if i < len(ops) and isinstance(ops[i], IntV) and ops[i].rng is None:
+                            fk = f["ty"].get("k")
+                            if fk in ("uint", "int", "bool", "char"):
+                                ops[i] = IntV(ops[i].lin, ops[i].cond, ty_range(Ty(f["ty"])))
                 is_enum = (adt is not None and adt["kind"] == "Enum") or rv.adt_name in STD_ENUMS
                 if is_enum:
                     return EnumV(rv.adt_name, {rv.variant: tuple(ops)})
@@ -1598,6 +1618,21 @@ class Interp:
             return self.finish_call(fr, st, bb, t, ret, k)
         name = _strip_generics(cal.name)
         tname = _strip_generics(cal.target().name)
+        ck = (fr.body.name, bb, tname)
+        ints = []
+        for a in args:
+            if isinstance(a, IntV):
+                ints.append(self.viv(st, a))
+            else:
+                ints.append(None)
+        old_ci = fr.run.calls.get(ck)
+        if old_ci is None or old_ci.get("k") == k:
+            fr.run.calls[ck] = {"ints": ints, "n": 1, "k": k}
+        else:
+            mi = []
+            for x, y in zip(old_ci["ints"], ints):
+                mi.append(None if x is None or y is None else (min(x[0], y[0]), max(x[1], y[1])))
+            fr.run.calls[ck] = {"ints": mi, "n": old_ci["n"] + 1, "k": None}
         # 1. models (by resolved name first, then by declared name)
         m = self.models.get(tname) or self.models.get(name)
         if m is not None:
